@@ -449,11 +449,12 @@ impl<'a, R: Clone> AsyncGlobalCache<'a, R> {
 
         let mut order = self.order.lock();
 
-        // If the key is already cached, the new value replaces the old one
-        self.remove_existing_entry(key, &mut order);
-
-        // Handle entry-count limits
-        self.handle_entry_limit_eviction(&mut order);
+        // If the key is already cached its entry is replaced in place by the insert below;
+        // only its queue position is renewed and no eviction is needed for it.
+        if !self.renew_existing_key(key, &mut order) {
+            // Handle entry-count limits
+            self.handle_entry_limit_eviction(&mut order);
+        }
 
         // Add the new entry to the order queue
         order.push_back(key.to_string());
@@ -462,19 +463,28 @@ impl<'a, R: Clone> AsyncGlobalCache<'a, R> {
         self.cache.insert(key.to_string(), (value, timestamp, 0));
     }
 
-    /// Removes the entry currently stored under `key`, if any, together with its position
-    /// in the eviction order, so that the value being inserted replaces it.
+    /// Prepares the replacement of an entry that is already cached under `key`.
     ///
     /// An insert always stores the value it was given (last store wins), exactly like the
-    /// sync caches: the replaced entry's timestamp, frequency and queue position are
-    /// discarded and the new entry starts fresh at the back of the queue.
+    /// sync caches. The existing entry is *not* removed here: the `DashMap::insert` that
+    /// follows overwrites it atomically, so a concurrent lookup never observes the key as
+    /// missing while its value is being replaced. Only the key's position in the eviction
+    /// order is dropped; the caller pushes it to the back again, and the replaced entry's
+    /// timestamp and frequency start fresh with the new value.
     ///
-    /// # Parameters
-    /// - `key`: The key about to be inserted.
-    /// - `order`: The locked order queue.
-    fn remove_existing_entry(&self, key: &str, order: &mut MutexGuard<RawMutex, VecDeque<String>>) {
-        if self.cache.remove(key).is_some() {
+    /// # Returns
+    /// `true` if the key is already cached (the insert replaces it and must not evict
+    /// another entry on its behalf), `false` if it is a new key.
+    fn renew_existing_key(
+        &self,
+        key: &str,
+        order: &mut MutexGuard<RawMutex, VecDeque<String>>,
+    ) -> bool {
+        if self.cache.contains_key(key) {
             order.retain(|k| k != key);
+            true
+        } else {
+            false
         }
     }
 
@@ -781,8 +791,9 @@ impl<'a, R: Clone + crate::MemoryEstimator> AsyncGlobalCache<'a, R> {
 
         let mut order = self.order.lock();
 
-        // If the key is already cached, the new value replaces the old one
-        self.remove_existing_entry(key, &mut order);
+        // If the key is already cached its entry is replaced in place by the insert below;
+        // only its queue position is renewed
+        let replacing = self.renew_existing_key(key, &mut order);
 
         // Check memory limit first (if specified)
         if let Some(max_mem) = self.max_memory {
@@ -796,13 +807,20 @@ impl<'a, R: Clone + crate::MemoryEstimator> AsyncGlobalCache<'a, R> {
                 // 1. Don't cache it at all (skip insertion)
                 // 2. Clear all entries and cache it anyway
                 // We choose option 1 to respect the memory limit
+                if replacing {
+                    // The previous value of this key is dropped as well (its queue
+                    // position is already gone), as in the sync caches
+                    self.cache.remove(key);
+                }
                 return;
             }
 
             loop {
+                // The value being replaced (if any) does not count: it is about to go
                 let current_mem: usize = self
                     .cache
                     .iter()
+                    .filter(|entry| entry.key() != key)
                     .map(|entry| entry.value().0.estimate_memory())
                     .sum();
 
@@ -869,8 +887,10 @@ impl<'a, R: Clone + crate::MemoryEstimator> AsyncGlobalCache<'a, R> {
             }
         }
 
-        // Handle entry-count limits (reuse the same method)
-        self.handle_entry_limit_eviction(&mut order);
+        // Handle entry-count limits (reuse the same method); a replaced key is no new entry
+        if !replacing {
+            self.handle_entry_limit_eviction(&mut order);
+        }
 
         // Add the new entry to the order queue
         order.push_back(key.to_string());
